@@ -250,10 +250,12 @@ package cdcn
 //@ global formatterClass nonnil
 //@ global tokenClass nonnil
 //@ global notationClass nonnil
+// every call works on a token queue and a push-back stack of its own: nothing is carried over from earlier calls
 //@ func (*parser_).ParseSource
-//@   props C12 C19
+//@   props C12 C11 C19
 //@   safe
 //@   modifies everything
+//@   ensures[C11] localfresh(this.tokens_) && localfresh(this.next_)
 //@   assumeat call8: nonnilq(this.tokens_)
 //@   loop 1:
 //@     invariant pready(this)
@@ -509,8 +511,19 @@ package cdcn
 //@ iface FormatterClassLike.Make
 //@   nopanic
 //@   ensures fresh(result) && result != nil
+// nparser(n): the parser a notation owns (stateful: one per notation, never shared)
+//@ model nparser U
+//@ iface ParserClassLike.Make
+//@   nopanic
+//@   ensures fresh(result) && result != nil
 //@ type *notation_
+//@   modelfield nparser this.parser_
 //@   invariant this.parser_ != nil
+//@ func (*notationClass_).Make
+//@   props C19
+//@   nopanic
+//@   ensures fresh(result) && result != nil
+//@   ensures[C19] fresh(nparser(result))
 //@ func (*notation_).FormatValue
 //@   props C19
 //@   nilok
